@@ -175,7 +175,7 @@ def paren_items(text: str, ident_quote='"', backslash=False):
     return None
 
 
-PREDICATE_CLAUSES = {"WHERE", "PREWHERE", "HAVING", "ON", "GROUP BY", "ORDER BY"}
+PREDICATE_CLAUSES = {"WHERE", "PREWHERE", "HAVING", "ON", "GROUP BY", "ORDER BY", "VALUES"}
 _FRAME_CLAUSES = [(ph.split(), nm) for ph, nm in CLAUSES] + [(["ON"], "ON"), (["USING"], "USING"), (["UNION"], "SETOP"),
                                                               (["INTERSECT"], "SETOP"), (["EXCEPT"], "SETOP"),
                                                               (["MINUS"], "SETOP"), (["OVER"], None)]
